@@ -99,28 +99,58 @@ Fixpoint advance_to_write (cfg : chan_cfg) (fuel : nat) (st : rst) : rst :=
 
 Definition with_sys (st : rst) (s : rsys) : rst := mkRst s (r_calls st) (r_outs st) (r_inflight st).
 
-Fixpoint replay (cfg : chan_cfg) (log : list lev) (st : rst) : rst :=
+Fixpoint replay_gen (final : bool) (cfg : chan_cfg) (log : list lev) (st : rst) : rst :=
   match log with
   | [] =>
-      let s' := drain cfg (fuel_of (r_sys st)) (r_sys st) in
-      mkRst s' (r_calls st) (if r_inflight st then out_of s' :: r_outs st else r_outs st) false
+      if final then
+        let s' := drain cfg (fuel_of (r_sys st)) (r_sys st) in
+        mkRst s' (r_calls st) (if r_inflight st then out_of s' :: r_outs st else r_outs st) false
+      else st
   | e :: rest =>
       let s := r_sys st in
       match e with
-      | LR n => replay cfg rest (with_sys st (step rfeed cfg s (Rd n)))
-      | LW _ _ => replay cfg rest (advance_to_write cfg (fuel_of s + 8 * length (r_calls st)) st)
+      | LR n => replay_gen final cfg rest (with_sys st (step rfeed cfg s (Rd n)))
+      | LW _ _ => replay_gen final cfg rest (advance_to_write cfg (fuel_of s + 8 * length (r_calls st)) st)
       | LDeadline =>
           let s1 := drain cfg (fuel_of s) s in
-          replay cfg rest (with_sys st (step rfeed cfg s1 Deadline))
-      | LEof => replay cfg rest (with_sys st (step rfeed cfg s Eof))
-      | LIoerr => replay cfg rest (with_sys st (step rfeed cfg s Ioerr))
+          replay_gen final cfg rest (with_sys st (step rfeed cfg s1 Deadline))
+      | LEof => replay_gen final cfg rest (with_sys st (step rfeed cfg s Eof))
+      | LIoerr => replay_gen final cfg rest (with_sys st (step rfeed cfg s Ioerr))
       | LCall =>
           let s1 := if r_inflight st then drain cfg (fuel_of s) s else s in
           match next_call (with_sys st s1) with
-          | Some st' => replay cfg rest st'
+          | Some st' => replay_gen final cfg rest st'
           | None => with_sys st s1
           end
       end
+  end.
+
+Definition replay := replay_gen true.
+(* a prefix of the log, without closing the call in flight; optionally letting the operation
+   consume everything that is queued at the end *)
+Definition replay_open (cfg : chan_cfg) (pre : list lev) (st : rst) (drain_first : bool) : rst :=
+  let st1 := replay_gen false cfg pre st in
+  if drain_first then with_sys st1 (drain cfg (fuel_of (r_sys st1)) (r_sys st1)) else st1.
+
+(* Connection loss races with the operation: when the reader reports EOF / an error, the operation
+   may or may not already have consumed the chunks queued before it (Channel.Read tests the
+   error hand-off and the exited flag BEFORE the queue).  Both orders are legal executions; the
+   replay therefore yields both outcomes for the FIRST loss event of a log: (a) the operation
+   drained the queue first, (b) it had not. *)
+Fixpoint split_at_loss (log : list lev) (acc : list lev) : option (list lev * lev * list lev) :=
+  match log with
+  | [] => None
+  | LEof :: t => Some (rev acc, LEof, t)
+  | LIoerr :: t => Some (rev acc, LIoerr, t)
+  | e :: t => split_at_loss t (e :: acc)
+  end.
+
+Definition replay_alts (cfg : chan_cfg) (log : list lev) (st : rst) : list rst :=
+  match split_at_loss log [] with
+  | None => [replay cfg log st]
+  | Some (pre, loss, post) =>
+      [ replay cfg (loss :: post) (replay_open cfg pre st true);
+        replay cfg (loss :: post) (replay_open cfg pre st false) ]
   end.
 
 Fixpoint logged_writes (log : list lev) : list (bytes * bytes) :=
@@ -135,6 +165,11 @@ Definition replay_session (cfg : chan_cfg) (start : bytes) (log : list lev) (cal
   let s0 : rsys := mkSys (logged_writes log, false) start [] [] (Ret []) [] [] RRun in
   let st := replay cfg log (mkRst s0 calls [] false) in
   (r_sys st, rev (r_outs st)).
+
+Definition replay_session_alts (cfg : chan_cfg) (start : bytes) (log : list lev) (calls : list call)
+  : list (rsys * list call_out) :=
+  let s0 : rsys := mkSys (logged_writes log, false) start [] [] (Ret []) [] [] RRun in
+  map (fun st => (r_sys st, rev (r_outs st))) (replay_alts cfg log (mkRst s0 calls [] false)).
 
 Definition desynced (s : rsys) : bool :=
   snd (s_dev s) || negb (match fst (s_dev s) with [] => true | _ => false end).
